@@ -2,7 +2,8 @@
 line grows with the length of the deserialised trace (measured: 0.5 M lines
 per process are fine, 2.6 M lines per process crawl at 14 k lines/min), so
 the trace is cut into chunks of bounded size at scenario boundaries and the
-chunks are validated by a pool of TLC processes."""
+chunks are validated by a pool of TLC processes (heap capped at 2 GB each: the
+default of a quarter of the RAM per JVM invites the OOM killer when many run)."""
 import os, re
 from concurrent.futures import ThreadPoolExecutor
 import vlib
@@ -43,7 +44,7 @@ def validate(sw, tracefile, par, chunk=120000, timeout=1500):
             return one_(fn)
 
     def one_(fn):
-        r = vlib.tlc(sw, "WsSessionMonTrace", "WsSessionMonTrace.cfg", workers=1, timeout=timeout, env={"TRACE": fn})
+        r = vlib.tlc(sw, "WsSessionMonTrace", "WsSessionMonTrace.cfg", workers=1, timeout=timeout, env={"TRACE": fn, "JAVA_TOOL_OPTIONS": "-Xmx2g"})
         bads = []
         for line in r.lines('<<"BAD"'):
             m = vlib.BAD_RE.match(line)
